@@ -37,7 +37,7 @@ from harness.templwiki import harness_error, seam
 PROPERTY = "C03"
 LEVEL = "exploration"
 
-VM_ACTIONS = ["Text", "Enter", "Raise", "ParamOut", "Leave", "LeaveArg", "Unwind", "Swallow", "UnwindMem", "CatchMem"]
+VM_ACTIONS = ["Text", "Enter", "Raise", "ParamOut", "Leave", "LeaveWrap", "LeaveArg", "Unwind", "Swallow", "UnwindMem", "CatchMem"]
 BLOCK = 100000
 
 VM_CFG = """SPECIFICATION Spec
@@ -46,6 +46,7 @@ CONSTANTS
   MaxBody = %(maxbody)d
   Limit = %(limit)d
   FewPages = %(fewpages)s
+  PF = %(pf)s
   Growth = %(growth)s
   BlockSize = %(block)d
   Cap = 262144
@@ -105,6 +106,8 @@ SHAPES = {
     "roundpos": "5 round 3000000",
     "powhuge": "2^99999999",
     "deepparen": "(" * 400 + "1" + ")" * 400,
+    "expneg": "1e-300000",
+    "expmid": "1e5000",
 }
 def mc_cfg(mode, nnames=1, npair=0, nfn=0, arity=0, stride2=0, stride=1, phase=0, nformats=1, ntimefns=1, nformatfns=1, maxlex=1, maxdeep=0):
     return MC_CFG % dict(mode=mode, nnames=nnames, npair=npair, nfn=nfn, arity=arity, stride2=stride2, stride=stride, phase=phase,
@@ -196,8 +199,8 @@ def B(x):
     return "TRUE" if x else "FALSE"
 
 
-def vm_cfg(nt, limit, maxbody=2, growth=False, swallow=2, dec=True, capbyname=True, emit=True):
-    return VM_CFG % dict(nt=nt, maxbody=maxbody, limit=limit, growth=B(growth), fewpages=B(nt >= 3), block=BLOCK, swallow=swallow, dec=B(dec),
+def vm_cfg(nt, limit, maxbody=2, growth=False, pf=False, swallow=2, dec=True, capbyname=True, emit=True):
+    return VM_CFG % dict(nt=nt, maxbody=maxbody, limit=limit, growth=B(growth), pf=B(pf), fewpages=B(nt >= 3), block=BLOCK, swallow=swallow, dec=B(dec),
                          capbyname=B(capbyname), emit=B(emit))
 
 
@@ -491,16 +494,26 @@ def project(text):
     return out if pos == len(text) else None
 
 
-def vm_concretise(case):
+# "I": a call inside the lazily evaluated branch argument of a parser function — every registered one of that kind
+WRAP_FORMS = ["{{#ifexpr:1|%s}}", "{{#if:1|%s}}", "{{#ifeq:1|1|%s}}", "{{#switch:1|1=%s}}", "{{#iferror:x|b|%s}}", "{{#ifexpr:0|x|%s}}", "{{#if:|x|%s}}"]
+
+
+class WorkBound(BaseException):
+    """Raised by the harness when the real expansion makes far more template lookups than the model predicts
+    (BaseException: nothing in the code under test may swallow it)."""
+
+
+def vm_concretise(case, form=0):
     u = case["univ"]
-    h = "V" + hashlib.sha1(json.dumps(u).encode()).hexdigest()[:10]
+    h = "V" + hashlib.sha1(json.dumps([u, form]).encode()).hexdigest()[:10]
     nm = {"%d" % i: "%sT%d" % (h, i) for i in (1, 2, 3)}
 
     def item(x):
         if x in ATOM:
             return ATOM[x]
         n = nm[x[1]]
-        return {"C": "{{%s}}" % n, "D": "{{%s|{{{1}}}{{{1}}}}}" % n, "S": "{{%s|%s}}" % (n, "x" * BLOCK)}[x[0]]
+        return {"C": "{{%s}}" % n, "D": "{{%s|{{{1}}}{{{1}}}}}" % n, "S": "{{%s|%s}}" % (n, "x" * BLOCK),
+                "I": WRAP_FORMS[form] % ("{{%s}}" % n)}[x[0]]
 
     def text(body):
         return "".join(item(x) for x in body)
@@ -509,22 +522,31 @@ def vm_concretise(case):
 
 
 def _vm_worker(args):
-    idx, cases, scratch = args
+    idx, cases, scratch = args[:3]
+    nforms_seed = args[3] if len(args) > 3 else (len(WRAP_FORMS), 0)
     from harness import templwiki
     templwiki.quiet_logging()
     Expander = _expander_class()
     tm = {}
     conc = []
     for c in cases:
-        t, p, nm = vm_concretise(c)
-        tm.update(t)
-        conc.append((c, t, p, nm))
+        wrapped = any(x[0] == "I" for b in c["univ"] for x in b)
+        forms = [0]
+        if wrapped:      # quick: two of the forms per behaviour, rotating with the behaviour and the seed; thorough: all
+            k = int(hashlib.sha1(json.dumps([c["univ"], c["page"]]).encode()).hexdigest()[:8], 16) + nforms_seed[1]
+            forms = sorted({(k + j * 3) % len(WRAP_FORMS) for j in range(nforms_seed[0])})
+        for form in forms:
+            t, p, nm = vm_concretise(c, form)
+            tm.update(t)
+            conc.append((dict(c, form=WRAP_FORMS[form] % "..") if wrapped else c, t, p, nm))
     path = os.path.join(scratch, "vm-%d" % idx)
     db = templwiki.make_wikidb(path, tm)
 
     class Logged(Expander):
         def get_parsed_template(self, name):
             self.vlog.append((name, self.recursion_count))
+            if len(self.vlog) > self.vmax:
+                raise WorkBound()
             return Expander.get_parsed_template(self, name)
 
     bad = []
@@ -541,13 +563,18 @@ def vm_run(Logged, db, c, t, p, nm):
     want_log = [tuple(x) for x in c["log"]]
     rep = {"kind": "vm", "case": c, "templates": t, "page": p if len(p) < 2000 else p[:200] + "..."}
     # "argcap": the model predicts that an argument outgrows the 256 KiB cap and is reported inline
-    key = "recursion guard%s limit=%d univ=%s page=%s" % (" argcap" if c.get("capped") else "", c["limit"], json.dumps(c["univ"]), json.dumps(c["page"]))
+    key = "recursion guard%s limit=%d univ=%s page=%s%s" % (" argcap" if c.get("capped") else "", c["limit"], json.dumps(c["univ"]), json.dumps(c["page"]),
+                                                             " I=" + c["form"] if c.get("form") else "")
     signal.signal(signal.SIGPROF, _alarm)
     signal.setitimer(signal.ITIMER_PROF, WATCHDOG_S)
     try:
         e = Logged(p, pagename="Main", wikidb=db, recursion_limit=c["limit"])
         e.vlog = []
+        e.vmax = 20 * len(want_log) + 200          # work bound: the model predicts every lookup
         got = e.expandTemplates()
+    except WorkBound:
+        return (key + " work", "more than %d template lookups, the model predicts %d: the expansion does not stop where the recursion guard must stop it"
+                % (e.vmax, len(want_log)), rep)
     except Hang:
         return (key + " hang", "no result after %ds" % WATCHDOG_S, rep)
     except BaseException as err:                                # noqa: BLE001
@@ -598,8 +625,11 @@ def run(ctx):
     # ---- 1. recursion guard: model checking + replay
     vm_cases = []
     # (NT, Limit, Growth): Growth adds doubling calls and block arguments (argument size limit)
-    vm_plans = ([(2, 2, False), (2, 3, False), (2, 4, False), (1, 10, True)] if quick
-                else [(2, 2, False), (2, 3, False), (2, 4, False), (3, 2, False), (3, 3, False), (3, 4, False), (1, 10, True), (2, 10, True)])
+    # (NT, Limit, alphabet): "g" adds doubling calls and block arguments (argument size limit), "pf" calls inside the
+    # lazily evaluated branch of a parser function (replayed with every registered function of that kind)
+    vm_plans = ([(2, 2, ""), (2, 3, ""), (2, 4, ""), (1, 10, "g"), (2, 4, "pf")] if quick
+                else [(2, 2, ""), (2, 3, ""), (2, 4, ""), (3, 2, ""), (3, 3, ""), (3, 4, ""), (1, 10, "g"), (2, 10, "g"),
+                      (2, 2, "pf"), (2, 3, "pf"), (2, 4, "pf"), (2, 6, "pf")])
     # all TLC runs are started now, four at a time; the Python phases below take the results as they need them
     from concurrent.futures import ThreadPoolExecutor
     ex = ThreadPoolExecutor(max_workers=4)
@@ -610,9 +640,10 @@ def run(ctx):
     langs = ["en"] if quick else ["en", "de", "fr", "ja", "es", "it", "nl", "pl", "pt", "sv", "no", "simple"]
     if os.environ.get("VERIF_C03_ONLY") == "vm":
         langs = []
-    f_vm = [T("TemplateVM", vm_cfg(nt, limit, growth=growth), "TemplateVM_%d_%d%s" % (nt, limit, "g" if growth else ""))
-            for nt, limit, growth in vm_plans]
+    f_vm = [T("TemplateVM", vm_cfg(nt, limit, growth=kind == "g", pf=kind == "pf"), "TemplateVM_%d_%d%s" % (nt, limit, kind))
+            for nt, limit, kind in vm_plans]
     f_cov = T("TemplateVM", vm_cfg(1, 10, growth=True, emit=False), "TemplateVM_cov", coverage=True)
+    f_cov2 = T("TemplateVM", vm_cfg(2, 2, pf=True, emit=False), "TemplateVM_cov2", coverage=True)
     nv_plans = (("SwallowDepth=0", dict(swallow=0), ("invariant", "NoEscape")),
                 ("Decrement=FALSE", dict(dec=False), ("invariant", "NoEscape")),   # the counter stays high: nobody swallows
                 ("CapByName=FALSE", dict(capbyname=False, growth=True, limit=10), ("invariant", "ArgBound")))
@@ -635,7 +666,7 @@ def run(ctx):
     f_junk = T("MagicCalls", mc_cfg("junk", maxlex=3, maxdeep=2), "MagicCalls_junk", coverage=True)
     ex.shutdown(wait=False)
 
-    for (nt, limit, growth), fut in zip(vm_plans, f_vm):
+    for (nt, limit, kind), fut in zip(vm_plans, f_vm):
         res = fut.result()
         if not res.ok:
             ctx.machinery("reference spec TemplateVM (NT=%d Limit=%d) violates %s %s — a defect of the specification\n%s"
@@ -643,9 +674,14 @@ def run(ctx):
         states += res.distinct
         trans += res.generated
         vm_cases.extend(res.emitted)
-        ctx.note("TemplateVM NT=%d Limit=%d" % (nt, limit) + (" growth" if growth else "") + ": %d states, %d terminal behaviours, TLC %.0fs" % (res.distinct, len(res.emitted), res.wall))
+        ctx.note("TemplateVM NT=%d Limit=%d" % (nt, limit) + (" " + kind if kind else "") + ": %d states, %d terminal behaviours, TLC %.0fs" % (res.distinct, len(res.emitted), res.wall))
         res.out = ""
     cov = f_cov.result()
+    cov2 = f_cov2.result()
+    for a, v in cov2.coverage.items():
+        w = cov.coverage.setdefault(a, [0, 0])
+        cov.coverage[a] = [w[0] + v[0], w[1] + v[1]]
+    cov.ok = cov.ok and cov2.ok
     missing = tlc.uncovered_actions(cov, VM_ACTIONS)
     if not cov.ok or missing:
         ctx.machinery("TemplateVM coverage run: ok=%s, actions never taken: %s" % (cov.ok, missing))
@@ -656,7 +692,8 @@ def run(ctx):
         if (r.kind, r.name) != want:
             ctx.machinery("non-vacuity: %s did not violate %s (got %s %s)" % (label, want[1], r.kind, r.name))
     t_lap = time.time()
-    n_vm, bad = pool_run(ctx, _vm_worker, [(i, ch, root) for i, ch in enumerate(chunks(vm_cases, ctx.ncpu * 2)) if ch])
+    nforms_seed = (2 if quick else len(WRAP_FORMS), ctx.seed)
+    n_vm, bad = pool_run(ctx, _vm_worker, [(i, vm_cases[i::ctx.ncpu * 4], root, nforms_seed) for i in range(ctx.ncpu * 4) if vm_cases[i::ctx.ncpu * 4]])
     if n_vm != len(vm_cases):
         ctx.machinery("replayed %d of %d behaviours" % (n_vm, len(vm_cases)))
     allbad.extend(bad)
@@ -749,7 +786,7 @@ def run(ctx):
                   magic_calls=n_calls, magic_names=names_total, junk_cases=n_junk, disagreements=len(allbad),
                   action_coverage={a: cov.coverage[a] for a in VM_ACTIONS}, nonvacuity=nonvac, exhaustive=False,
                   rule="(1) every terminal behaviour of TemplateVM.tla (all call graphs on NT templates with bodies of <= 2 items, 33 pages (3 pages for NT=3), "
-                       "Limit in {2,3,4}, and with doubling calls / block arguments at Limit 10; plans %r as (NT, Limit, Growth)) replayed on the real Expander — non-trivial = nesting deeper than 2; (2) every call "
+                       "Limit in {2,3,4}, and with doubling calls / block arguments at Limit 10; plans %r as (NT, Limit, alphabet: g = doubling arguments, pf = calls inside parser-function branches, each replayed with forms of #ifexpr/#if/#ifeq/#switch/#iferror: 2 of 7 rotating in quick, all 7 in thorough)) replayed on the real Expander — non-trivial = nesting deeper than 2; (2) every call "
                        "TLC enumerates from MagicCalls.tla over the name table generated from the running code for sites %r (24 shapes = 10 base + oversize "
                        "+ 13 'arithmetic at the edges'; arity 0..1 complete; arity 2 / 3: for every function of >= 2 arguments (introspected) an all-pairs covering design "
                        "(base square / orthogonal array over the base shapes, every heavy shape in every position against every critical shape empty/zero/negative/huge), "
